@@ -3,6 +3,7 @@
 import functools
 import inspect
 import textwrap
+import types
 from collections.abc import MutableMapping, MutableSequence, MutableSet
 from typing import Any, Callable, Iterable, Optional
 
@@ -493,7 +494,7 @@ class DeepCopyMethod(MethodDescriptor):
             if inspect.ismethod(value) and value.__self__ is self:
                 # Copying would recurse into `self`: the copy holds the same
                 # method, bound to itself.
-                new.__dict__[attr] = value.__func__.__get__(new, type(new))
+                new.__dict__[attr] = types.MethodType(value.__func__, new)
                 continue
             if attr == "__spec_class_initializing__":
                 continue  # A copy taken during `__post_init__` is not itself being initialised.
